@@ -44,7 +44,7 @@ class Ctx:
 
 class Clause:
     def __init__(self, name, check, rule, gen=None, enum=None, nontrivial=None, key=None,
-                 classes=None, n=None, shards=None, exhaustive=False, enum_desc=None):
+                 classes=None, n=None, shards=None, exhaustive=False, enum_desc=None, fuzz=None):
         self.name = name
         self.check = check
         self.rule = rule
@@ -57,6 +57,9 @@ class Clause:
         self.shards = shards or {"quick": 4, "thorough": 16}
         self.exhaustive = exhaustive
         self.enum_desc = enum_desc
+        # coverage-guided campaigns on a byte-level oracle: {"runs": {tier: n}, "campaigns": {tier: k},
+        #  "max_len": L, "corpus": [bytes, ...]}; the clause's check takes {"data": bytes}
+        self.fuzz = fuzz
 
 
 # ----------------------------------------------------------------------------------------------
@@ -331,6 +334,119 @@ def _write_replay(prop_id, clause_name, sig, case_enc, detail, seed, tier):
     return path
 
 
+
+# ----------------------------------------------------------------------------------------------
+# coverage-guided fuzzing (atheris / libFuzzer) of byte-level oracles
+def ensure_atheris():
+    deps = os.path.join(VERIF_DIR, ".deps")
+    if os.path.isdir(os.path.join(deps, "atheris")):
+        return True
+    import subprocess
+    r = subprocess.run([sys.executable, "-m", "pip", "install", "--no-index", "--find-links", "/opt/veriftools/wheels",
+                        "--target", deps, "atheris"], capture_output=True, text=True)
+    return r.returncode == 0 and os.path.isdir(os.path.join(deps, "atheris"))
+
+
+def _fuzz_campaign(args):
+    import re
+    import shutil
+    import subprocess
+    prop_id, cname, name, runs, fseed, max_len, corpus = args
+    work = os.path.join(VERIF_DIR, ".work", "fuzz", "%s-%s-%s" % (prop_id, cname, name))
+    shutil.rmtree(work, ignore_errors=True)
+    cdir = os.path.join(work, "corpus")
+    os.makedirs(cdir)
+    for i, b in enumerate(corpus):
+        with open(os.path.join(cdir, "seed-%03d" % i), "wb") as f:
+            f.write(b)
+    cmd = [sys.executable, os.path.join(VERIF_DIR, "fuzz", "run_target.py"), prop_id, cname,
+           "-runs=%d" % runs, "-seed=%d" % (fseed % (2 ** 31 - 1) + 1), "-max_len=%d" % max_len,
+           "-artifact_prefix=%s/crash-" % work, "-print_final_stats=1", "-timeout=60", cdir]
+    env = dict(os.environ, PYTHONHASHSEED="0")
+    t0 = time.time()
+    r = subprocess.run(cmd, capture_output=True, text=True, env=env, cwd=work)
+    err = r.stderr
+    m = re.search(r"stat::number_of_executed_units:\s+(\d+)", err)
+    executed = int(m.group(1)) if m else 0
+    m = re.search(r"stat::new_units_added:\s+(\d+)", err)
+    new_units = int(m.group(1)) if m else 0
+    crashes = []
+    for fn in sorted(os.listdir(work)):
+        if fn.startswith("crash-"):
+            with open(os.path.join(work, fn), "rb") as f:
+                crashes.append(f.read())
+    ok = (r.returncode == 0) or bool(crashes)
+    return {"name": name, "runs_requested": runs, "executed": executed, "new_units": new_units, "seed": fseed,
+            "seed_corpus": len(corpus), "crashes": crashes, "ok": ok, "returncode": r.returncode,
+            "stderr_tail": err[-1500:] if not ok else "", "wall_s": round(time.time() - t0, 1)}
+
+
+def _minimise(prop_id, cname, data, sig, budget=3000):
+    """Greedy chunk removal keeping the same violation signature."""
+    evals = 0
+    cur = data
+    chunk = max(1, len(cur) // 2)
+    while chunk >= 1 and evals < budget:
+        i = 0
+        changed = False
+        while i < len(cur) and evals < budget:
+            cand = cur[:i] + cur[i + chunk:]
+            evals += 1
+            v = replay_case(prop_id, cname, {"data": cand})
+            if v is not None and v.sig == sig:
+                cur = cand
+                changed = True
+            else:
+                i += chunk
+        if not changed:
+            chunk //= 2
+    return cur
+
+
+def run_fuzz(prop_id, clauses, tier, seed, known_sigs):
+    """-> (per-clause info, failures {(clause, sig): (case_enc, detail)}, notes)."""
+    from concurrent.futures import ThreadPoolExecutor
+    todo = [c for c in clauses if c.fuzz and c.fuzz.get("campaigns", {}).get(tier, 0) > 0]
+    info, failures, notes = {}, {}, []
+    if not todo:
+        return info, failures, notes
+    if not ensure_atheris():
+        notes.append("atheris could not be installed from the local wheelhouse: coverage-guided campaigns skipped")
+        return info, failures, notes
+    jobs = []
+    for c in todo:
+        k = c.fuzz["campaigns"][tier]
+        runs = c.fuzz["runs"][tier]
+        for j in range(k):
+            seeded = (j % 2 == 1)
+            jobs.append((prop_id, c.name, "%s%d" % ("seeded" if seeded else "empty", j), runs,
+                         derive_seed(seed, prop_id, c.name, "fuzz", j), c.fuzz.get("max_len", 256),
+                         list(c.fuzz.get("corpus", [])) if seeded else []))
+    with ThreadPoolExecutor(max_workers=min(16, len(jobs))) as ex:
+        results = list(ex.map(_fuzz_campaign, jobs))
+    for job, r in zip(jobs, results):
+        cname = job[1]
+        d = info.setdefault(cname, {"campaigns": [], "executions": 0, "coverage_increasing_inputs": 0})
+        d["campaigns"].append({k: v for k, v in r.items() if k not in ("crashes", "stderr_tail")} | {"crashes": len(r["crashes"])})
+        d["executions"] += r["executed"]
+        d["coverage_increasing_inputs"] += r["new_units"]
+        if not r["ok"]:
+            notes.append("campaign %s/%s failed to run (rc=%s): %s" % (cname, r["name"], r["returncode"], r["stderr_tail"][-300:]))
+        for data in r["crashes"]:
+            v = replay_case(prop_id, cname, {"data": data})
+            if v is None:
+                notes.append("fuzz crash in %s did not reproduce on replay (%d bytes)" % (cname, len(data)))
+                continue
+            if v.sig in known_sigs:
+                continue
+            small = _minimise(prop_id, cname, data, v.sig)
+            v2 = replay_case(prop_id, cname, {"data": small}) or v
+            key = (cname, v.sig)
+            if key not in failures or len(small) < len(dec(failures[key][0])["data"]):
+                failures[key] = (enc({"data": small}), v2.detail)
+    return info, failures, notes
+
+
 def run_property(prop_id, tier, seed, workers=None):
     """Returns exit code. Prints VIOLATION / KNOWN-FINDING lines, writes evidence."""
     t0 = time.time()
@@ -423,6 +539,11 @@ def run_property(prop_id, tier, seed, workers=None):
             if any(cn == c.name for (cn, _s) in new_fail):
                 pending.append(c)
 
+    fuzz_info, fuzz_notes = {}, []
+    if not errors:
+        fuzz_info, fuzz_fail, fuzz_notes = run_fuzz(prop_id, clauses, tier, seed, known_sigs)
+        for k, val in fuzz_fail.items():
+            found.setdefault(k, val)
     for (cname, sig), (case_enc, detail) in sorted(found.items()):
         path = _write_replay(prop_id, cname, sig, case_enc, detail, seed, tier)
         violations.append((sig, path, detail))
@@ -434,8 +555,10 @@ def run_property(prop_id, tier, seed, workers=None):
         return 2
 
     # evidence
-    total_evals = sum(a["evals"] for a in agg.values()) + n_regress
-    total_nt = sum(len(a["keys"]) + a["extra_nt"] for a in agg.values())
+    fuzz_exec = sum(d["executions"] for d in fuzz_info.values())
+    fuzz_new = sum(d["coverage_increasing_inputs"] for d in fuzz_info.values())
+    total_evals = sum(a["evals"] for a in agg.values()) + n_regress + fuzz_exec
+    total_nt = sum(len(a["keys"]) + a["extra_nt"] for a in agg.values()) + fuzz_new
     samples = []
     for c in clauses:
         for s in agg[c.name]["samples"][:3]:
@@ -464,6 +587,9 @@ def run_property(prop_id, tier, seed, workers=None):
                     "shard_wall_s_max": round(agg[c.name]["wall"], 2),
                 } for c in clauses},
             "known_findings_hit": dict(known_seen),
+            "coverage_guided_fuzzing": {"engine": "atheris/libFuzzer", "clauses": fuzz_info, "notes": fuzz_notes,
+                                        "counting": "executions are added to evaluations; inputs that increased "
+                                                    "coverage (libFuzzer new_units_added) count as distinct non-trivial"},
             "workers": workers,
         },
         "assumptions": list(getattr(mod, "ASSUMPTIONS", [])) + [
@@ -488,6 +614,11 @@ def run_property(prop_id, tier, seed, workers=None):
             print("NOTE: listed finding not reproduced this run: property=%s %s" % (prop_id, k["what"]))
     print("SUMMARY property=%s tier=%s seed=%s evaluations=%d distinct_nontrivial=%d violations=%d wall=%.1fs"
           % (prop_id, tier, seed, total_evals, total_nt, len(violations), wall))
+    for cname, d in fuzz_info.items():
+        print("  fuzz   %-22s executions=%d coverage-increasing=%d campaigns=%d" % (
+            cname, d["executions"], d["coverage_increasing_inputs"], len(d["campaigns"])))
+    for note in fuzz_notes:
+        print("  NOTE: " + note)
     for cname in agg:
         a = agg[cname]
         print("  clause %-22s evals=%-8d enum=%-7d nontrivial=%-7d known=%d  %.1fs" % (
